@@ -25,8 +25,8 @@ void w_publish(unsigned i); void w_republish(unsigned i); void w_release_record(
 
 int holder;                       /* 0 none, 1 me, 2 another thread */
 unsigned issued[5], applied[5], freed[5], env_issued[5];
-int budget; int mode;             /* 1 pass (I am the combiner), 2 requester protocol, 3 publish, 4 compact */
-unsigned me; int spare_published;
+int budget; int exit_budget; int mode;             /* 1 pass (I am the combiner), 2 requester protocol, 3 publish, 4 compact */
+unsigned me; int spare_published; unsigned env_exited[5];
 
 static unsigned present[5], state0[5], req0[5], age0[5], next0[5], pending0[5];
 /* in the requester-protocol harness the caller's record is the head or record 1, and record 1 is only ever (re)linked right behind the head */
@@ -77,18 +77,19 @@ void vx_after(const void* addr, unsigned long o, unsigned long n) {
 void vx_env(const void* addr) {
     unsigned f = w_field_of(addr);
     if (f != 99) __CPROVER_assert(!freed[f / 10], "C23.compact_no_access_after_free: a reclaimed publication record is not accessed afterwards");
-    if (budget <= 0) return;
+    if (budget <= 0 && exit_budget <= 0) return;
     unsigned c = nondet_unsigned() % 8, j = 1 + nondet_unsigned() % 3;
     if (mode == 1) {          /* I am the combiner: requesters issue requests on their own empty, active records */
-        if (c == 1 && w_state(j) == ACTIVE && w_req(j) == EMPTY && present[j]) { --budget; w_env_set_req(j, OP + nondet_unsigned() % 2); ++issued[j]; env_issued[j] = 1; }
-    } else if (mode == 2) {
+        if (c == 1 && budget > 0 && w_state(j) == ACTIVE && w_req(j) == EMPTY && present[j]) { --budget; w_env_set_req(j, OP + nondet_unsigned() % 2); ++issued[j]; env_issued[j] = 1; }
+    } else if (mode == 2 && budget > 0) {
         if (holder == 2) {
             if (c == 1 && w_state(me) == ACTIVE && w_req(me) >= OP && me_linked()) { --budget; ++applied[me]; w_env_set_req(me, RESPONSE); }        /* the other combiner executes my request */
             else if (c == 2 && me != 0 && w_state(me) == ACTIVE && me_linked()) { --budget; w_set_rec(0, w_req(0), w_state(0), w_age(0), w_next(1), w_next_alloc(0)); w_env_set_state(me, INACTIVE); }             /* ... or compacts my (old) record away */
             else if (c == 3) { --budget; holder = 0; }                                                                                              /* ... or finishes */
         } else if (holder == 0 && c == 4) { --budget; holder = 2; }
     } else if (mode == 3 || mode == 4) {
-        if (c == 1 && !spare_published && w_state(4) == INACTIVE) { --budget; spare_published = 1; w_env_publish(4); }                               /* another thread publishes its record */
+        if (c == 1 && budget > 0 && !spare_published && w_state(4) == INACTIVE) { --budget; spare_published = 1; w_env_publish(4); }                               /* another thread publishes its record */
+        else if (mode == 4 && c == 2 && exit_budget > 0 && !freed[j] && (w_state(j) == ACTIVE || w_state(j) == INACTIVE)) { --exit_budget; env_exited[j] = 1; w_env_set_state(j, REMOVED); }   /* a thread exits: its TLS cleanup marks its record removed, at any moment */
     }
 }
 /* wait strategy: lets the environment run; when the budget is used up the other combiner (if any) finishes its pass fairly */
@@ -196,11 +197,17 @@ void h_compact_list(void) {
     build(0);
     vx_bool exited = nondet_unsigned() % 2;                      /* thread exit of record 3's owner right before: tls_cleanup marks it removed */
     if (exited && state0[3] != REMOVED) { w_tls_cleanup(3); __CPROVER_assert(w_state(3) == REMOVED && w_next(3) == next0[3], "C23.compact_removed_reclaimed: thread exit only marks the record"); state0[3] = REMOVED; }
-    mode = 4; holder = 1; budget = 1; me = 9;
+    mode = 4; holder = 1; budget = 1; exit_budget = 1; me = 9;
+    for (unsigned i = 0; i < 5; ++i) env_exited[i] = 0;
     w_compact_list(age);
+    exit_budget = 0;
     for (unsigned i = 1; i <= 3; ++i) {
         vx_bool old = (unsigned)(age0[i] + mask) < age;
-        if (state0[i] == REMOVED) {
+        __CPROVER_assert(!(freed[i] && in_list(i)), "C23.compact_no_access_after_free: a freed record is not reachable from the publication list (the next combining pass would read it)");
+        if (env_exited[i]) {
+            /* its thread exited while the compaction ran: it is reclaimed now or by the next compaction, but never freed while linked (asserted above) */
+            __CPROVER_assert(freed[i] ? (!in_list(i) && !in_alloc(i)) : in_alloc(i), "C23.compact_removed_reclaimed: a record whose thread exits during the compaction is either fully reclaimed or left allocated for the next compaction");
+        } else if (state0[i] == REMOVED) {
             __CPROVER_assert(!in_list(i) && !in_alloc(i) && freed[i] == 1, "C23.compact_removed_reclaimed: a record left by an exited thread is unlinked from both lists and freed exactly once");
         } else if (state0[i] == ACTIVE && !old) {
             __CPROVER_assert(in_list(i) && in_alloc(i) && !freed[i] && w_state(i) == ACTIVE, "C23.compact_keeps_live: a recently used active record stays published");
